@@ -1,3 +1,4 @@
+import JobShopModel.FeatureSpecs
 import JobShopModel.Features
 import JobShopProofs.Properties.C06
 /-!
@@ -71,10 +72,6 @@ theorem unschedJob_dispatch {I : Instance} {s s' : State} {j p m : Nat} {op : Op
     simp
 
 /-! ## DurationObserver, job level -/
-
-/-- specification: remaining work of each job = total duration of its unscheduled operations -/
-def durJobsSpec (I : Instance) (s : State) : List Int :=
-  (List.range I.length).map fun j => (((unscheduledPure I s).filter fun r => r.1 == j).map (opDurF I)).sum
 
 theorem durJobsSpec_dispatch {I : Instance} {s s' : State} {j p m : Nat} {op : Op} (hwf : WF I s)
     (hd : DispSpec I s s' j p m op) :
